@@ -672,35 +672,13 @@ end
 all (floats are finite and datetimes naive by construction of the universe) -/
 def withinLimits (fmt : Fmt) (x : Obj) : Bool := fmt != .msgspec || ints64 x
 
-/-! ### the fragment for which the round trip is proved (`Props/C16.lean`) -/
+/-! ### which collections are unstructured to a list (case split of the round-trip proof) -/
 
-/-- the collection is not unstructured to a `set`/`frozenset` (whose rebuilt element list would need the
-injectivity of the element encoding) -/
+/-- the collection is not unstructured to a `set`/`frozenset` (whose rebuilt element list needs the injectivity of
+the element encoding: `Preconf/Lemmas2.lean`) -/
 def listTarget (cf : Conf) (k : SK) : Bool :=
   match unTarget cf.fmt k with
   | .list => true
   | _ => false
-
-mutual
-/-- the fragment of the type language covered by `rt_frag`: every constructor except mappings, TypedDicts, the
-collections that are unstructured to a `set`/`frozenset` (pyyaml `set`, msgspec sets) and, for msgspec, classes
-that are passed through to `to_builtins` (no private attrs attribute and no field with a custom hook) -/
-def frag (cf : Conf) : PTy → Bool
-  | .coll k t => listTarget cf k && frag cf t
-  | .tupleHet ts => fragT cf ts
-  | .opt t => frag cf t
-  | .cls _ dc fs => (cf.fmt != .msgspec || (!dc && privF fs) || customF cf fs) && fragF cf fs
-  | .map _ _ _ | .td _ => false
-  | _ => true
-termination_by structural t => t
-def fragT (cf : Conf) : List PTy → Bool
-  | [] => true
-  | t :: ts => frag cf t && fragT cf ts
-termination_by structural ts => ts
-def fragF (cf : Conf) : List (String × PTy) → Bool
-  | [] => true
-  | (_, t) :: fs => frag cf t && fragF cf fs
-termination_by structural fs => fs
-end
 
 end CattrsModel.Preconf
